@@ -124,13 +124,18 @@ def run_case(c, tmp):
         rec['chunks'] = [list(f.keys()) for f in frags]
         rec['chunk_fs'] = [fs_out(dadi.Spectrum.from_data_dict(f, pop_ids, projs, mask_corners=mc, polarized=bp)) for f in frags]
         rec['whole_fs'] = fs_out(dadi.Spectrum.from_data_dict(dd2, pop_ids, projs, mask_corners=mc, polarized=bp))
-        if c.get('boot_seed') is not None:
-            random.seed(c['boot_seed'])
-        boots = dadi.Misc.bootstraps_from_dd_chunks(frags, c['nboot'], pop_ids, projs, mc, bp)
-        rec['boots'] = [fs_out(b) for b in boots]
-        rec['picks'] = list(PICKS)
     except Exception as e:
         rec['chunk_error'] = type(e).__name__ + ': ' + str(e)[:200]
+        frags = None
+    if frags is not None:
+        try:
+            random.seed(c.get('boot_seed', 0))
+            boots = dadi.Misc.bootstraps_from_dd_chunks(frags, c['nboot'], pop_ids, projs, mc, bp)
+            rec['boots'] = [fs_out(b) for b in boots]
+        except Exception as e:
+            rec['boots_error'] = type(e).__name__ + ': ' + str(e)[:200]
+        finally:
+            rec['picks'] = list(PICKS)
     # statistics on the full-size spectrum
     try:
         full = c['full']
@@ -144,7 +149,13 @@ def run_case(c, tmp):
     if c.get('snp_text'):
         try:
             p2 = write_text(os.path.join(tmp, 'c%d.snps.txt' % c['id']), c['snp_text'], c.get('snp_transport', 'plain'))
-            dds = dadi.Misc.make_data_dict(p2)
+            try:
+                dds = dadi.Misc.make_data_dict(p2)
+            except Exception as e:
+                if c.get('snp_transport', 'plain') == 'plain':
+                    raise
+                rec['snp_transport_error'] = type(e).__name__ + ': ' + str(e)[:200]
+                dds = dadi.Misc.make_data_dict(write_text(os.path.join(tmp, 'c%d.snps.txt' % c['id']), c['snp_text'], 'plain'))
             rec['snp_dd'] = dd_out(dds)
             rec['snp_fs_pol'] = fs_out(dadi.Spectrum.from_data_dict(dds, pop_ids, projs, mask_corners=mc, polarized=True))
             rec['snp_fs_fold'] = fs_out(dadi.Spectrum.from_data_dict(dds, pop_ids, projs, mask_corners=mc, polarized=False))
